@@ -57,6 +57,7 @@ func Eventually(d time.Duration, f func() bool) bool {
 // TNode is one real server node.
 type TNode struct {
 	Idx  int
+	Gen  int // cluster generation (unique per cluster in this process)
 	ID   string
 	Srv  *server.Server
 	Conf *config.Config
@@ -70,7 +71,40 @@ func (n *TNode) GossipAddr() string   { return n.Conf.Cluster.Gossip.AdvertiseAd
 
 // TCluster is a set of real nodes in this process.
 type TCluster struct {
-	Nodes []*TNode
+	Nodes   []*TNode
+	Gen     int
+	holders []net.Listener
+}
+
+var clusterGen atomic.Int64
+
+// HoldPorts re-binds the addresses of a dead node with listeners that close
+// every connection at once, so that no other process picks the freed ports up
+// and answers in the dead node's place.
+func (cl *TCluster) HoldPorts(n *TNode) {
+	for _, addr := range []string{n.ProxyAddr(), n.UpstreamAddr(), n.AdminAddr()} {
+		for attempt := 0; attempt < 20; attempt++ {
+			ln, err := net.Listen("tcp", addr)
+			if err != nil {
+				time.Sleep(5 * time.Millisecond)
+				continue
+			}
+			cl.holders = append(cl.holders, ln)
+			go func() {
+				for {
+					c, err := ln.Accept()
+					if err != nil {
+						return
+					}
+					if tc, ok := c.(*net.TCPConn); ok {
+						_ = tc.SetLinger(0)
+					}
+					c.Close()
+				}
+			}()
+			break
+		}
+	}
 }
 
 // NewNodeConf is the base configuration of a test node.
@@ -108,7 +142,7 @@ func StartCluster(n int, noJoin bool, mod func(i int, c *config.Config)) (*TClus
 }
 
 func startCluster(n int, noJoin bool, mod func(i int, c *config.Config)) (*TCluster, error) {
-	cl := &TCluster{}
+	cl := &TCluster{Gen: int(clusterGen.Add(1))}
 	for i := 0; i < n; i++ {
 		var join []string
 		if !noJoin {
@@ -129,7 +163,7 @@ func startCluster(n int, noJoin bool, mod func(i int, c *config.Config)) (*TClus
 			cl.Stop()
 			return nil, fmt.Errorf("start server %d: %w", i, err)
 		}
-		cl.Nodes = append(cl.Nodes, &TNode{Idx: i, ID: conf.Cluster.NodeID, Srv: srv, Conf: conf, Up: true})
+		cl.Nodes = append(cl.Nodes, &TNode{Idx: i, Gen: cl.Gen, ID: conf.Cluster.NodeID, Srv: srv, Conf: conf, Up: true})
 	}
 	return cl, nil
 }
@@ -148,6 +182,10 @@ func (cl *TCluster) Stop() {
 		}
 	}
 	wg.Wait()
+	for _, h := range cl.holders {
+		h.Close()
+	}
+	cl.holders = nil
 }
 
 // Live returns the running nodes.
@@ -293,6 +331,9 @@ type UpstreamOpts struct {
 
 // ConnectUpstream connects a new stamping upstream of the given kind.
 func ConnectUpstream(ctx context.Context, node *TNode, id, endpoint, kind string, o UpstreamOpts) (*Up, error) {
+	// the id is unique per cluster in this process: a stamp from an upstream that
+	// leaked from an earlier case is recognisable as such
+	id = fmt.Sprintf("%s@g%d", id, node.Gen)
 	u := &Up{ID: id, Endpoint: endpoint, Kind: kind, Node: node, serveDone: make(chan struct{})}
 	target := "http://" + node.UpstreamAddr()
 	if o.URL != "" {
@@ -333,6 +374,7 @@ func ConnectUpstream(ctx context.Context, node *TNode, id, endpoint, kind string
 	case "agent-tcp":
 		l, err := net.Listen("tcp", "127.0.0.1:0")
 		if err != nil {
+			_ = ln.Shutdown()
 			return nil, err
 		}
 		u.localTCP = l
@@ -358,6 +400,7 @@ func ConnectUpstream(ctx context.Context, node *TNode, id, endpoint, kind string
 			}
 		}()
 	default:
+		_ = ln.Shutdown()
 		return nil, fmt.Errorf("unknown upstream kind %s", kind)
 	}
 	return u, nil
@@ -370,6 +413,15 @@ func (u *Up) IsHTTP() bool { return strings.HasSuffix(u.Kind, "http") }
 func (u *Up) Disconnect() {
 	u.gone.Store(true)
 	_ = u.ln.Shutdown()
+	// a listener that was in the middle of reconnecting may have installed a new
+	// session after Shutdown read the old one: shut down once more when serving ended
+	go func() {
+		select {
+		case <-u.serveDone:
+		case <-time.After(2 * time.Second):
+		}
+		_ = u.ln.Shutdown()
+	}()
 	if u.httpSrv != nil {
 		_ = u.httpSrv.Close()
 	}
@@ -512,6 +564,16 @@ func DialTCP(node *TNode, endpoint, token string, keep bool) *TCPResult {
 		c.Close()
 	}
 	return res
+}
+
+// ForeignStamp reports whether an upstream id belongs to another cluster of this process.
+func ForeignStamp(id string, gen int) bool {
+	i := strings.LastIndex(id, "@g")
+	if i < 0 {
+		return false
+	}
+	g, err := strconv.Atoi(id[i+2:])
+	return err == nil && g != gen
 }
 
 // IsGatewayRefusal reports whether a dial error is piko refusing with a gateway status.
